@@ -140,6 +140,25 @@ func c16Inputs(thorough bool) []c16case {
 		a, b := ps.gen(i)
 		add(fmt.Sprintf("panos-objs:%d", i), "PAN-OS", core.Files{Main: a}, b)
 	}
+	// PAN-OS: identical unused address-groups on the device; the target
+	// needs a group of that content for a new rule / for a replaced list
+	{
+		x := []string{"a1", "a2"}
+		r1 := panRuleT{"allow", "z1", "z2", []string{"a1"}, []string{"a3"}, []string{"tcp 80"}, ""}
+		r2 := panRuleT{"allow", "z2", "z1", []string{"gx"}, []string{"a3"}, []string{"tcp 80"}, ""}
+		d := panVsysT{name: "vsys1", rules: []panRuleT{r1}, groups: map[string][]string{"g7": x, "g8": x, "g9": x}}
+		t := panVsysT{name: "vsys1", rules: []panRuleT{r1, r2}, groups: map[string][]string{"gx": x}}
+		add("panos-new-rule-identical-leftovers", "PAN-OS", core.Files{Main: panConfig(d)}, core.Files{Main: panConfig(t)})
+		r2d := r2
+		r2d.src = []string{"gdev"}
+		d2 := panVsysT{name: "vsys1", rules: []panRuleT{r1, r2d}, groups: map[string][]string{"gdev": {"a1", "a2", "a3", "a4", "a5"}, "g7": x, "g8": x, "g9": x}}
+		add("panos-replaced-list-identical-leftovers", "PAN-OS", core.Files{Main: panConfig(d2)}, core.Files{Main: panConfig(t)})
+		// identical unused service-groups and services
+		r3 := panRuleT{"allow", "z1", "z2", []string{"a1"}, []string{"a3"}, []string{"sg1"}, ""}
+		d3 := panVsysT{name: "vsys1", rules: []panRuleT{r1}, sgroup: map[string][]string{"sg7": {"tcp 80", "udp 53"}, "sg8": {"tcp 80", "udp 53"}, "sg9": {"tcp 80", "udp 53"}}}
+		t3 := panVsysT{name: "vsys1", rules: []panRuleT{r1, r3}, sgroup: map[string][]string{"sg1": {"tcp 80", "udp 53"}}}
+		add("panos-identical-service-groups", "PAN-OS", core.Files{Main: panConfig(d3)}, core.Files{Main: panConfig(t3)})
+	}
 	return l
 }
 
